@@ -30,11 +30,13 @@ def main():
     if "--seeds" in sys.argv:
         seeds = sys.argv[sys.argv.index("--seeds") + 1].split(",")
     target = "--target" in sys.argv
+    import re
+    match = re.compile(sys.argv[sys.argv.index("--match") + 1]) if "--match" in sys.argv else None
     out_path = os.path.join(HERE, "seeded", "MATRIX.json")
     res = json.load(open(out_path)) if os.path.exists(out_path) else {}
     for name in sorted(os.listdir(os.path.join(HERE, "seeded"))):
         d = os.path.join(HERE, "seeded", name)
-        if not os.path.isdir(d) or (only and not name.startswith(only)):
+        if not os.path.isdir(d) or (only and not name.startswith(only)) or (match and not match.search(name)):
             continue
         tmp = tempfile.mkdtemp(prefix="sm_%s_" % name)
         try:
